@@ -68,6 +68,24 @@ func cliCheck(res *sched.Result, w *cliWorld) (finds []explore.Finding, outcome 
 		m.Raw = append(m.Raw, d...)
 		return m.Decode() == nil
 	}
+	// what a handler must see: the decode of exactly the delivered datagram
+	wantContent := func(d []byte) string {
+		m := new(stun.Message)
+		if len(d) > 1024 {
+			d = d[:1024]
+		}
+		m.Raw = append(m.Raw, d...)
+		if m.Decode() != nil {
+			return "?"
+		}
+		return msgContent(m)
+	}
+	for _, r := range w.log {
+		if (r.Kind == "handler" || r.Kind == "fallback") && r.Data != nil && r.Attr != wantContent(r.Data) {
+			add("C12/message-not-decode-of-datagram", "a handler saw a Message whose fields/attributes (%s) are not the decode of its own Raw bytes (%s); %s", clipS(r.Attr), clipS(wantContent(r.Data)), w.logString())
+			break
+		}
+	}
 	consumed := map[int]int{} // delivered datagram index -> times consumed
 	findDelivered := func(data []byte) int {
 		for i, d := range w.delivered {
